@@ -5,6 +5,7 @@ import (
 	"go/ast"
 	"go/token"
 	"go/types"
+	"sort"
 	"strings"
 )
 
@@ -522,6 +523,49 @@ func (f *Fn) ConstName(e ast.Expr) string {
 		}
 	}
 	return ""
+}
+
+// ConstNames returns the set of constants e may denote: the constant itself, or, for a local whose
+// definitions are all plain assignments, the union over its right-hand sides. ok is false when some
+// possible value is not a named constant.
+func (f *Fn) ConstNames(e ast.Expr) (names []string, ok bool) {
+	return f.constNames(e, 0)
+}
+
+func (f *Fn) constNames(e ast.Expr, depth int) ([]string, bool) {
+	if n := f.ConstName(e); n != "" {
+		return []string{n}, true
+	}
+	id, isID := Unparen(e).(*ast.Ident)
+	if !isID || depth > 4 {
+		return nil, false
+	}
+	v, isVar := f.ObjOf(id).(*types.Var)
+	if !isVar || f.AssignedOutside(v) {
+		return nil, false
+	}
+	exprs, plain := f.DefExprs(v)
+	if !plain || len(exprs) == 0 {
+		return nil, false
+	}
+	var out []string
+	for _, x := range exprs {
+		ns, ok := f.constNames(x, depth+1)
+		if !ok {
+			return nil, false
+		}
+		for _, n := range ns {
+			dup := false
+			for _, o := range out {
+				dup = dup || o == n
+			}
+			if !dup {
+				out = append(out, n)
+			}
+		}
+	}
+	sort.Strings(out)
+	return out, true
 }
 
 // Roles rewrites canonical strings: every occurrence of a key of roles is replaced by its value
